@@ -157,7 +157,39 @@ def corpus_texts():
     return _corpus_texts
 
 
+COMMENT_BLOCKS = [
+    ["# ----", "# Title", "# ----"],
+    ["#", "# A sentence.", "#"],
+    ["# ====", "# one", "# two", "# ===="],
+    ["#", "#", "# x", "#", "#"],
+    ["# a", "# b", "# a"],
+    ["# a  ", "# b", "# a  "],
+    ["#", "# only", ""],
+    ["# same", "# same", "# same"],
+    ["", "#", "", "# t", "", "#", ""],
+]
+
+
+def with_comment_blocks(rnd, text):
+    """Blocks of comment-only lines with repeated, framing and blank lines, put before arbitrary lines."""
+    lines = text.split("\n")
+    for _ in range(rnd.choice([1, 1, 2, 3])):
+        at = rnd.randrange(len(lines) + 1)
+        nxt = lines[at] if at < len(lines) else ""
+        ind = nxt[: len(nxt) - len(nxt.lstrip(" "))] if rnd.random() < 0.7 else " " * rnd.choice([0, 1, 2, 4, 7])
+        block = [(ind + l if l else l) for l in rnd.choice(COMMENT_BLOCKS)]
+        lines[at:at] = block
+    return "\n".join(lines)
+
+
 def build_text(rnd):
+    klass, text = build_text_plain(rnd)
+    if rnd.random() < 0.25:
+        return klass + "+comment-blocks", with_comment_blocks(rnd, text)
+    return klass, text
+
+
+def build_text_plain(rnd):
     k = rnd.random()
     if k < 0.5:
         terms = gsample.random_module_terms(rnd)
